@@ -297,6 +297,8 @@ def multisets(w, Nmax):
 def run(run):
     thorough = run.tier == "thorough"
     plan = [(1, 5 if thorough else 4, 3), (2, 5 if thorough else 4, 3), (3, 5 if thorough else 3, 3 if thorough else 2)]
+    if thorough:
+        plan.append((4, 3, 2))
     cases, ccases = [], []
     for w, Nmax, T in plan:
         nops = len(operators(w, T))
